@@ -12,12 +12,32 @@ Aliasing == {0, 1}
 
 Case(kind, a, b, c, n, al, z) ==
     [kind |-> kind, from |-> a, via |-> b, to |-> c, n |-> n,
-     alias |-> al, z0 |-> z, net |-> "-"]
+     alias |-> al, z0 |-> z, net |-> "-", mag |-> "unit"]
+
+(* MAGNITUDE CLASSES.  The property quantifies over matrices and reference *)
+(* impedances of any size; a conversion must not depend on the units.      *)
+(*   unit   network impedances of the order of z0, z0 of the order 50 ohm  *)
+(*   lo6 lo3 hi3 hi6   impedance level of the network 1e-6 .. 1e6 times    *)
+(*          z0.  Only for conversions inside the voltage/current family    *)
+(*          (neither end a wave type, no Zin): there z0 does not enter     *)
+(*          and the conversion is as regular as at unit level; a wave      *)
+(*          representation of such a network sits at |s| -> 1, i.e. at the *)
+(*          edge of its own singular set, and is not in the regular set    *)
+(*   z0lo z0hi   z0 of the order 1e-3 / 1e5 ohm, the network with it       *)
+(*   z0mix  z0 of each port drawn from 1e-3 .. 1e5 ohm independently, the  *)
+(*          network matched to them port by port                           *)
+LevelClasses == {"lo6", "lo3", "hi3", "hi6"}
+Z0MagClasses == {"z0lo", "z0hi", "z0mix"}
+VIFamily(t) == t \in MatrixTypes \ WaveTypes
+
+MCase(kind, a, b, c, n, m) ==
+    [kind |-> kind, from |-> a, via |-> b, to |-> c, n |-> n,
+     alias |-> 0, z0 |-> "cplx", net |-> "-", mag |-> m]
 
 (* a conversion applied to a structured network for which both ends exist *)
 SCase(kind, net, a, c, n, al, z) ==
     [kind |-> kind, from |-> a, via |-> "-", to |-> c, n |-> n,
-     alias |-> al, z0 |-> z, net |-> net]
+     alias |-> al, z0 |-> z, net |-> net, mag |-> "unit"]
 
 DPairs(S, T) == {p \in S \X T : p[1] # p[2]}
 DTriples(S, T, U) ==
@@ -88,6 +108,38 @@ CaseSet ==
          z \in Z0Classes}
       \cup
       (* every conversion on the structured networks of its regular set *)
-      {k \in StructuredCases : SRegular(k)})
+      {k \in StructuredCases : SRegular(k)}
+      \cup
+      (* magnitude classes: impedance level (voltage/current family) *)
+      {MCase("conv2", p[1], "-", p[2], 2, m) :
+         p \in {q \in DPairs(MatrixTypes, MatrixTypes) :
+                  VIFamily(q[1]) /\ VIFamily(q[2])}, m \in LevelClasses}
+      \cup
+      {MCase("convn", p[1], "-", p[2], n, m) :
+         p \in {q \in DPairs(NPortTypes, NPortTypes) :
+                  VIFamily(q[1]) /\ VIFamily(q[2])},
+         n \in 1..MaxN, m \in LevelClasses}
+      \cup
+      {MCase("roundn", p[1], p[2], p[1], n, m) :
+         p \in {q \in DPairs(NPortTypes, NPortTypes) :
+                  VIFamily(q[1]) /\ VIFamily(q[2])},
+         n \in 1..MaxN, m \in LevelClasses}
+      \cup
+      {MCase("nvs2", p[1], "-", p[2], 2, m) :
+         p \in {q \in DPairs(NPortTypes, NPortTypes) :
+                  VIFamily(q[1]) /\ VIFamily(q[2])}, m \in LevelClasses}
+      \cup
+      (* magnitude classes: size of the reference impedances, every function *)
+      {MCase("conv2", p[1], "-", p[2], 2, m) :
+         p \in DPairs(MatrixTypes, MatrixTypes), m \in Z0MagClasses}
+      \cup
+      {MCase("convn", p[1], "-", p[2], n, m) :
+         p \in DPairs(NPortTypes, NPortTypes), n \in 1..MaxN,
+         m \in Z0MagClasses}
+      \cup
+      {MCase("zin2", a, "-", "ZIN", 2, m) : a \in MatrixTypes, m \in Z0MagClasses}
+      \cup
+      {MCase("zinn", a, "-", "ZIN", n, m) :
+         a \in NPortTypes, n \in 1..MaxN, m \in Z0MagClasses})
 
 =============================================================================
